@@ -447,19 +447,20 @@ _ALSO = {
     'C03': 'handlers registered late, events awaited by several parties, deep fire-and-forget chains under tiny history limits, zero / negative / never-expiring event timeouts',
     'C04': 'children awaited through asyncio.gather helper tasks, awaited twice / by siblings / although dispatched by top-level code, explicit parents',
     'C05': 'stop() programs with long in-handler awaits; every dequeue records whether the drain\'s awaited event was already complete (F0 covers only entries taken before that); fire-and-forget tasks that outlive their handler and await when everything is idle, followed by two-bus traffic',
-    'C07': 're-dispatch of the same object to the same and to other buses (reach set and path re-evaluated), buses created under one requested name, forwarding under small history limits',
-    'C08': 'every complete event re-observed and awaited from a SECOND event loop after the first one was closed; accessor calls on completed events; timeout programs; event objects rebuilt from dumps of finished events and dispatched again, children observed when the parent\'s processing ends',
+    'C07': 're-dispatch of the same object to the same and to other buses (reach set and path re-evaluated), buses created under one requested name, forwarding under small history limits; EventBus subclasses whose instances are falsy while their queue is empty (__len__ = backlog)',
+    'C08': 'every complete event re-observed and awaited from a SECOND event loop after the first one was closed; accessor calls on completed events; timeout programs; event objects rebuilt from dumps of finished events and dispatched again, children observed when the parent\'s processing ends; a bus stopped while another bus\'s handler processes one of its events inline',
     'C09': 'events dispatched from the cancellation clean-up of timed-out handlers, explicit parents, handlers registered late, event objects constructed before the program starts and dispatched by a handler later',
     'C10': 'forwards to a second (parallel) bus, blocking sync siblings (deadline window, delivery delayed by blocking stretches), clean-up dispatch, user-raised TimeoutError, zero / negative timeouts (events count as touched: must complete with TimeoutError results)',
-    'C11': 'typed events with returned exceptions; unhashable / two-argument / chained exception objects; raise instants enumerated against a sibling\'s awaited child; falsy exception objects (__len__ 0 / __bool__ False)',
-    'C12': 'falsy and two-argument exception objects raised and returned; result types declared by a subclass of an already instantiated typed parent class',
+    'C11': 'typed events with returned exceptions; unhashable / two-argument / chained exception objects; raise instants enumerated against a sibling\'s awaited child; falsy exception objects (__len__ 0 / __bool__ False); programs run with UserWarning promoted to an error',
+    'C12': 'falsy and two-argument exception objects raised and returned; result types declared by a subclass of an already instantiated typed parent class; constrained (Annotated) result types',
     'C13': 'forwarded in-flight events under small limits, handler-less events',
     'C14': 'stop() programs (dispatch to a stopping / stopped bus from handlers, forwards and actors); an event not in the queue when dispatch() returns counts as dropped',
     'C15': 'timeout programs, in-handler awaits bounded by asyncio.wait_for placed at every instant, two concurrent callers (one leaving early); callers still blocked after W silent seconds are recorded before the harness probes',
     'C16': 'stop(clear=True), double and two-bus stops, stop() from inside handlers, parallel buses, asyncio.Runner exit, raw cancellation of the run-loop task between the thread hand-offs of its own WAL append',
     'C17': 'payloads without a JSON encoding (non-UTF-8 bytes, arbitrary objects, lone surrogates) count as failing writes',
-    'C19': 'timeout=None; 2-4 overlapping calls of one decorated function / method, each against its own timetable; exception texts with braces, percent signs and control characters',
-    'C20': 'an unrelated class with the same __name__, a second function naming the same semaphore, 70 instance-scoped keys, cancellation k loop iterations after the victim\'s own acquisition instant with the load probe due; caller instances that compare equal and hash alike (value objects)',
+    'C18': 'bus names of up to 250 characters (the listener expect() registers is named after the bus); sized (falsy) buses',
+    'C19': 'timeout=None; 2-4 overlapping calls of one decorated function / method, each against its own timetable; exception texts with braces, percent signs and control characters; awaitable return values (Future / Task / coroutine object) returned as they are',
+    'C20': 'an unrelated class with the same __name__, a second function naming the same semaphore, 70 instance-scoped keys, cancellation k loop iterations after the victim\'s own acquisition instant with the load probe due; caller instances that compare equal and hash alike (value objects); caller tasks created inside an execution that holds a slot',
 }
 for _p, _t in _ALSO.items():
     CHECKS[_p].rule += ' | added later: ' + _t
